@@ -291,6 +291,15 @@ def check(run, prog, tier):
         bad = [n.get("l") for b, i, n in ljs if not any(eh.dominates(g, b.id) for g in gb)]
         run.ob("C05-c", "reset:" + gname, bool(gb) and not bad, "%s dominates all %d longjmp sites" % (gname, len(ljs)) if gb and not bad else "longjmp at line(s) %s not dominated by %s" % (bad, gname),
                eh.file, eh.line, "error_handler", what="error_handler can jump without %s" % gname)
+    # the pending count of a `...` expansion belongs to the call that failed: it is dropped before any LPC code runs again
+    # (the mudlib error handler is called from here, before the jump)
+    vr = [(b.id, i) for b, i, n in eh.nodes() if n.get("k") == "Asg" and n.get("op") == "=" and strip(n["L"]).get("k") == "Ref" and strip(n["L"]).get("n") == "num_varargs" and const_val(n["R"]) == 0]
+    lpc_first = [(b, i, n) for b, i, n in eh.calls() if n.get("fn") in ("longjmp", "_longjmp", "siglongjmp", "mudlib_error_handler", "apply_master_ob", "safe_apply_master_ob")]
+    badv = [n.get("l") for b, i, n in lpc_first if not any(eh.point_dominates(p, (b.id, i)) for p in vr)]
+    run.ob("C05-c", "reset:num_varargs", bool(vr) and not badv, "num_varargs = 0 precedes the mudlib error handler and every longjmp (%d sites)" % len(lpc_first) if vr and not badv else
+           ("error_handler never clears num_varargs" if not vr else "line(s) %s are reached with a pending `...` count" % badv) + ": an error raised between F_EXPAND_VARARGS and its call instruction (depth limit, undefined function, the eval-cost tick) hands the count to the next call - master::error_handler() or the next evaluation gets extra arguments",
+           eh.file, eh.line, "error_handler", what="a pending varargs expansion count survives an error")
+
     # the same holds for every other function of the unit that jumps to the current recovery point itself (throw_error:
     # a thrown value leaves load_object()/destruct_object() exactly like an error does)
     ecu = prog.unit("src/error_context.c")
